@@ -201,8 +201,51 @@ def run_one(req, host, port, method_reply=b'\x05\x00'):
         return dict(viol=viol, obs=obs, log=log)
 
 
+def run_buffered(req, host, port, fail_at):
+    """the machine without an output callback queues what it wants sent; send_data(cb) drains the queue.  cb accepts every
+    chunk; on its fail_at-th call (None = never) it raises after accepting, and the caller drains again.  What the callback
+    accepted, in order, is what went out: it must be the reference byte stream, nothing twice."""
+    viol = []
+    accepted = []
+    calls = [0]
+
+    def cb(data):
+        accepted.append(bytes(data))
+        calls[0] += 1
+        if fail_at is not None and calls[0] == fail_at:
+            raise IOError('injected: write failed after the chunk was taken')
+    try:
+        m = socks._SocksMachine(req, host, port, create_connection=(lambda addr, port: None) if req == 'CONNECT' else None)
+        m.connection()
+        drains = 0
+
+        def drain():
+            try:
+                m.send_data(cb)
+            except IOError:
+                m.send_data(cb)
+        drain()
+        m.feed_data(b'\x05\x00')
+        drain()
+    except Exception as e:
+        viol.append(('buffered-raised', type(e).__name__, '%s %r:%d fail_at=%r: %r' % (req, host, port, fail_at, e)))
+        return dict(viol=viol, obs=('raised',), log=[])
+    got = b''.join(accepted)
+    ok = False
+    if got.startswith(socks5.GREETING):
+        try:
+            q = socks5.parse_request(got[len(socks5.GREETING):])       # exactly one request, nothing after it
+            ok = any(w[0] == 'request' and tuple(w[1:]) == (q['cmd'], q['atyp'], q['addr'], q['port']) for w in expected(req, host, port))
+        except Exception:
+            ok = False
+    if not ok:
+        viol.append(('buffered-output', 'duplicated' if got.count(socks5.GREETING) > 1 or len(accepted) > 2 else 'other',
+                     '%s %r:%d with the %r-th write failing once: the callback accepted %r' % (req, host, port, fail_at, accepted)))
+    return dict(viol=viol, obs=('buffered', got), log=['accepted %r' % (accepted,)])
+
+
 def tasks(tier, seed):
-    out = []
+    out = [('buffered',)]
     for lo in range(0, 65536, 4096):
         out.append(('ports', lo, lo + 4096))
     out.append(('hostnames',))
@@ -223,6 +266,15 @@ def record(acc, key, r, nontrivial=True):
 
 def run_task(param, acc):
     thorough = acc.tier == 'thorough'
+    if param[0] == 'buffered':
+        for req, host, port in (('CONNECT', 'example.com', 443), ('CONNECT', '10.1.2.3', 80), ('RESOLVE', 'example.com', 0), ('RESOLVE_PTR', '1.2.3.4', 0)):
+            for fail_at in (None, 1, 2, 3):
+                r = run_buffered(req, host, port, fail_at)
+                acc.execution(key=('buffered', req, host, fail_at), outcome='buffered/' + ('/'.join(sorted(set(v[0] for v in r['viol']))) or 'ok'),
+                              nontrivial=fail_at is not None, steps=3)
+                for clause, feat, detail in r['viol']:
+                    acc.violation('%s/%s' % (clause, feat), detail, dict(req=req, host=host, port=port, buffered=True, fail_at=fail_at), cost=1)
+        return
     if param[0] == 'ports':
         targets = ['example.com'] + (['10.1.2.3', '2001:db8::5'] if thorough else [])
         for port in range(param[1], param[2]):
@@ -262,6 +314,9 @@ def run_task(param, acc):
 
 
 def replay(p):
+    if p.get('buffered'):
+        r = run_buffered(p['req'], p['host'], p['port'], p['fail_at'])
+        return dict(violations=[dict(signature='%s/%s' % (c, f), what=d) for c, f, d in r['viol']], log=r['log'])
     mr = bytes.fromhex(p['method']) if p.get('method') else b'\x05\x00'
     r = run_one(p['req'], p['host'], p['port'], mr)
     return dict(violations=[dict(signature='%s/%s' % (c, f), what=d) for c, f, d in r['viol']], log=r['log'])
